@@ -173,7 +173,7 @@ def gen_cases(tier, seed, shapes=None, per_shape=None):
     cases = []
     cid = 0
     for (src, ch) in gen_harness.all_shapes():
-        if src == "endless":
+        if src in ("endless", "bigrange"):
             continue
         if shapes is not None and gen_harness.shape_name(src, ch) not in shapes:
             continue
@@ -354,6 +354,17 @@ def analyse(cases, impl, model, full, survivors=None):
             out["known"]["C01_pre_map_col"] = out["known"].get("C01_pre_map_col", 0) + 1
             out["known"].setdefault("C01_pre_map_col_sample", c[:300])
             continue
+        # --- known finding (C02): on such a source the sequential path reports the position among the
+        # remaining elements, the parallel path the position in the original source
+        if (src_ in gen_harness.PRE_SOURCES and int(cf.get("pre", "0")) > 0 and nt2 == 1 and term in ("findix", "firstix")
+                and af["res"].startswith("I:") and mf["res"].startswith("I:") and af["res"] != "I:-" and mf["res"] != "I:-"):
+            ia, va = af["res"].split(":")[1:3]
+            im, vm = mf["res"].split(":")[1:3]
+            if va == vm and int(ia) + int(cf["pre"]) == int(im):
+                out["known"]["C02_pre_seq_index"] = out["known"].get("C02_pre_seq_index", 0) + 1
+                out["known"].setdefault("C02_pre_seq_index_sample", c[:300] + " -> " + af["res"])
+                af = dict(af)
+                af["res"] = mf["res"]
         # --- K3 result correspondence (C01-C04, C06, C07, C09, C15b)
         if af["res"] != mf["res"]:
             tie = False
@@ -491,6 +502,29 @@ def analyse(cases, impl, model, full, survivors=None):
                 bad = [b for b in bs[:-1] if b % want != 0 and not (b % want == (n_in + 1) % want or b % want == n_in % want)]
                 if bad and total <= n_in + len(bs) + 1:
                     out["dist"]["c11_burst_suspects"] += 1
+        # --- C16: nothing is consumed while building; the terminal runs under the parameters last set
+        if src_ in ("iterx", "iteru") and "srcctor" in af:
+            want_c, got_c = int(mf.get("consumed", "0")), int(af["srcctor"])
+            if want_c == 0 and got_c > 0:
+                oracle("C16", c, "source elements were consumed while the computation was being built", {"elements": got_c})
+            elif want_c != got_c:
+                mism("consumed", c, got_c, want_c)
+        # (the harness writes sum as map(wrap).sum(): one more stage, possibly an eager one -- not compared)
+        rph = [] if af.get("runphases", "-") == "-" else af["runphases"].split("/")
+        truns = [r_ for r_, ph_ in zip(runs, rph) if ph_ == "1"]
+        if term != "sum" and len(rph) == len(runs):
+            if mf.get("seq") == "1":
+                if truns:
+                    oracle("C16", c, "worker threads were spawned by the terminal although the parameters last set are sequential", af["runs"])
+            elif mf.get("runner", "-") != "-":
+                if not truns:
+                    oracle("C16", c, "the terminal ran on the calling thread although the parameters last set are not sequential",
+                           {"params_last_set": mf["params"], "runs": af["runs"]})
+                else:
+                    t = truns[-1].split(":")
+                    got_r = ":".join(t[1:4])
+                    if got_r != mf["runner"]:
+                        mism("runner", c, got_r, mf["runner"])
         # --- C15b: no panic
         if af["res"] == "P":
             oracle("C15", c, "terminal panicked", a[:300])
